@@ -235,8 +235,10 @@ def bulk_sets(ctx):
                     for n, ch in enumerate(chunks):
                         files["%s/User%d.1.0.dsdl" % (root, n)] = "".join("%s.%s.1.0 f%d\n" % (root, w, i) for i, w in enumerate(ch)) + "@sealed\n"
                 key = "bulk|%s|%s|layer %d|%d words" % (pos, cls, ln, len(lws))
+                # one header per word for type names: the oldest and the newest C++ standard are enough there
+                mycfgs = [c for c in cfgs if c in ("c", "cpp14", "cpp20", "py")] if pos == "type" else cfgs
                 out.append(({"id": "b-" + sha(key)[:10], "roots": [root], "files": files,
-                             "meta": {"src": "names", "pos": pos, "cls": "bulk:" + cls, "kind": "struct", "word": "*", "key": key, "words": lws}}, cfgs))
+                             "meta": {"src": "names", "pos": pos, "cls": "bulk:" + cls, "kind": "struct", "word": "*", "key": key, "words": lws}}, mycfgs))
     return out
 
 
